@@ -22,7 +22,7 @@ def check_cuts_array(
     Returns
     -------
     cuts : np.ndarray
-        The unmodified input cuts array.
+        The input cuts as an int64 array (the input itself if it already is one).
 
     Raises
     ------
@@ -34,6 +34,10 @@ def check_cuts_array(
 
     if not np.issubdtype(cuts.dtype, np.integer):
         raise ValueError("The cuts must be of integer type.")
+
+    # Interval sizes, products and negations computed in a narrow or unsigned integer
+    # type wrap around silently.
+    cuts = cuts.astype(np.int64, copy=False)
 
     if cuts.shape[-1] != last_dim_size:
         raise ValueError(
